@@ -65,6 +65,17 @@ Example fixed_glued_update :
   /\ map (fun fs' => List.length (prims loc dh upd9 (fresh_state fs'))) tornStates = [3; 4; 4; 3]%nat.
 Proof. repeat split; vm_compute; reflexivity. Qed.
 
+(* ... and in ALL nine crash states of the Close (temporary copy absent / empty / torn / complete, compacted copy published next to the
+   original, original removed) an update recorded afterwards by a new process is shown by all three queries: FindByRequestID scans
+   the matches in REVERSE name order, so next to its original the compacted copy is the file found, updated - and read by the listings *)
+Example update_after_close_crash :
+  forallb (fun fs' => let fs2 := hfs (apply loc dh (fresh_state fs') upd9) in
+                      match fpayload (q_find loc dh fs2 a "req-bbbb-2"), snd (q_latest loc dh [] fs2 a None), snd (q_recent loc dh [] fs2 a 2) with
+                      | Some p, LOk p', [r1; r2] => Nat.eqb (p_tag p) 9 && Nat.eqb (p_tag p') 9 && Nat.eqb (p_tag r1) 9
+                                                   && String.eqb (p_req r1) "req-bbbb-2" && String.eqb (p_req r2) "req-aaaa-1"
+                      | _, _, _ => false end) closeStates = true.
+Proof. vm_compute. reflexivity. Qed.
+
 (* the premises of the crash theorems are satisfiable: es1 followed by a write, a close, an update, a retention *)
 Definition DE7 := [a; ab].
 Definition runsE7 := [("20240101.10:00:00.100", "req-aaaa"); ("20240101.10:00:01.300", "req-bbbb")].
